@@ -92,7 +92,7 @@ def key_table(prog: Program, rep: Report) -> None:
 
 def sections(prog: Program, rep: Report) -> None:
     rule = "R18.2"
-    mi = prog.func("model.Model.__init__")
+    mi = prog.view("model.Model.__init__")
     reads = set(prog.role_order)
     for n in walk_no_nested(mi.node):
         if isinstance(n, ast.Subscript) and unparse(n.value) == "config" and isinstance(n.slice, ast.Constant):
